@@ -11,7 +11,7 @@
    the two differ for GGetCells (Some area) only. *)
 From Coq Require Import List ZArith Lia Bool Arith.
 Import ListNotations.
-Require Import Vault Row Table Grid Tableabs Tablexmlproof TableB TableBabs TableBproof TableG TableGspec TableGproof TableGproof2 TableGproof3 TableGproof4 TableGproof5 TableGproof6 TableGproof7 TableGsweep.
+Require Import Vault Row Table Grid Tableabs Tablexmlproof TableB TableBabs TableBproof TableG TableGspec TableGproof TableGproof2 TableGproof3 TableGproof4 TableGproof5 TableGproof6 TableGproof7 TableGproof8 TableGsweep.
 Open Scope Z_scope.
 
 (* ---- the full statement: on every well-formed table whose rows fit its columns, every getter with any coordinates
@@ -87,6 +87,34 @@ Proof. exact small_scope_padded. Qed.
 Print Assumptions C08_small_scope_candidate_repair.
 Example small_scope_bounds : (length small_tables, length small_getters) = (396%nat, 2382%nat).
 Proof. exact small_scope_size. Qed.
+
+(* ---- LAZY consumption of the generators (traverse, Row.traverse, traverse_columns and everything built on them): the caller
+        edits object k as soon as it is yielded, before object k+1 is produced.  In the code as it is every copy is made from the
+        STORED element (flags all false), so for ANY edits the objects received are those of an eager list(...): the returned
+        objects are detached from each other, not only from the table ---- *)
+Theorem C08_lazy_consumption_is_eager : forall (O : Type) (inherit : O -> O -> O) (f : O -> O) (flags : list bool) (objs : list O) (prev : option O),
+  Forall (fun b => b = false) flags -> length flags = length objs -> lazy_run inherit f prev (combine flags objs) = objs.
+Proof. exact (@lazy_is_eager). Qed.
+Print Assumptions C08_lazy_consumption_is_eager.
+Theorem C08_row_and_column_generators_copy_the_stored_element : forall (A : Type) (inherit : Z * nat * A -> Z * nat * A -> Z * nat * A) (f : Z * nat * A -> Z * nat * A) (s e : option Z) (v : runs A),
+  Forall (fun b => b = false) (vault_flags false s e v) /\
+  lazy_run inherit f None (combine (vault_flags false s e v) (vault_traverse false s e v)) = vault_traverse false s e v.
+Proof. intros. split; [apply vault_flags_false|apply vault_traverse_lazy]. Qed.
+Print Assumptions C08_row_and_column_generators_copy_the_stored_element.
+Theorem C08_table_traverse_copies_the_stored_row : forall (inherit : robj -> robj -> robj) (f : robj -> robj) (rs : list (nat * rowx)),
+  lazy_run inherit f None (combine (yield_flags false rs) (yield_rows false 0 0 rs)) = yield_rows false 0 0 rs.
+Proof. exact yield_rows_lazy. Qed.
+Print Assumptions C08_table_traverse_copies_the_stored_row.
+(* F112: Row.traverse / traverse_columns before their repair copied every further item of a run from the copy yielded just before;
+   the same flaw in _yield_odf_rows is the independently written change seeded/C08-3 *)
+Theorem C08_lazy_copy_of_previous_refuted : exists (v : rruns) (f : Z * nat * cell -> Z * nat * cell), wf v /\
+  lazy_run inherit_cell f None (combine (vault_flags true None None v) (vault_traverse false None None v)) <> vault_traverse false None None v.
+Proof. exact lazy_prev_refuted_w. Qed.
+Print Assumptions C08_lazy_copy_of_previous_refuted.
+Theorem C08_lazy_rows_copy_of_previous_refuted : exists (rs : list (nat * rowx)) (f : robj -> robj), wf rs /\
+  lazy_run inherit_row f None (combine (yield_flags true rs) (yield_rows false 0 0 rs)) <> yield_rows false 0 0 rs.
+Proof. exact lazy_rows_prev_refuted_w. Qed.
+Print Assumptions C08_lazy_rows_copy_of_previous_refuted.
 
 (* ---- refuted: the PINNED getters ---- *)
 (* F13: traverse / rows / get_rows hand out the LIVE wrapper of an unrepeated row; mutating it changes the table *)
